@@ -280,3 +280,34 @@ PROPS["C12"] = dict(
     assumptions=COMMON_ASSUMPTIONS + ["hook H2 (cfg sourcemap_verif) re-exports StripHeaderReader/strip_junk_header; add-only"],
 )
 HOOK_COMMITS.append("95aad40")
+
+def _corrupt_c15(e):
+    r = e["out"]["ret"]
+    if isinstance(r, int):
+        e["out"]["ret"] = r + 1
+    elif r == []:
+        e["out"]["ret"] = [[120]]
+    elif e["op"] == "lines":
+        e["out"]["ret"] = r + [[]]
+    else:
+        e["out"]["ret"] = [r[0] + [120]]
+    return True
+
+PROPS["C15"] = dict(
+    level="model_checking",
+    level_text="SourceView.tla gives the declarative split (CR LF, LF, lone CR; trailing terminator => final empty line) and the lazy line index as a state machine; TLC checks for every text of <= MaxText characters over {LF, CR, 'a', astral} and every request history of depth <= Depth that each answer equals the history-independent declarative one and the index stays a consistent prefix; UTF-16 slices for all (line, c, n) incl. u32::MAX. Every history is executed on a fresh real SourceView and the STATEFUL trace spec steps the machine call by call comparing each return value.",
+    level_note="text positions are code points (UTF-8 byte offsets are not observable); Unicode beyond the sampled code points is not modelled",
+    technique="TLA+ lazy-index state machine + declarative line/slice semantics, TLC exhaustive over texts x histories, stateful trace validation of real get_line/line_count/lines/get_line_slice calls",
+    mc=[
+        dict(module="MC_SourceView", cfg="MC_SourceView_quick.cfg", tiers=("quick",), workers=8),
+        dict(module="MC_SourceView", cfg="MC_SourceView_slices_quick.cfg", tiers=("quick",), workers=8),
+        dict(module="MC_SourceView", cfg="MC_SourceView_thorough.cfg", tiers=("thorough",), workers=14, timeout=3400, heap="24g"),
+        dict(module="MC_SourceView", cfg="MC_SourceView_slices_thorough.cfg", tiers=("thorough",), workers=14, timeout=3400, heap="24g"),
+    ],
+    trace="Trace_C15",
+    drive=dict(quick=dict(n=1500, size=4), thorough=dict(n=30000, size=7)),
+    nontrivial=lambda e: len(e["args"]["text"]) >= 2,
+    corrupt=_corrupt_c15,
+    rule="cases: every text of <= MaxText chars over {LF, CR, 'a', U+1F60D} x every history of Depth requests over get_line(0..MaxText+1), line_count, lines (TLC), every (line, c, n) slice with c, n in {0..3, u32::MAX}; seeded texts of up to ~200 chars (2/3/4-byte characters, CR/LF mixes) with up to 50 requests incl. extreme slices; distinct = distinct (op, args) ; non-trivial = text of >= 2 characters",
+    assumptions=COMMON_ASSUMPTIONS,
+)
